@@ -178,6 +178,12 @@ def add_late_settings(L):
         (lo, hi) = (F(8192) + lo, F(8192) + lo + F(1, 16)) if hi > 0 else (-(F(8192) - hi + F(1, 16)), -(F(8192) - hi))
       nb.append((lo, hi))
     L['bounds'] = nb
+  elif r2.random() < 0.15:
+    # whole-number bounds handed over as an INTEGER array (rounded outwards, so cumulative bounds stay attainable): nothing may compute
+    # in the dtype of the bounds
+    import math
+    L['bounds'] = [(F(math.floor(lo)), F(math.ceil(hi))) for lo, hi in L['bounds']]
+    L['intb'] = True
   if cls == 'TDevice' and r2.random() < 0.1:
     L['t_optimal'], L['t_range'] = F(256), F(1, 512)      # a comfort band that is narrow relative to the temperature scale
   if r2.random() < 0.25:
@@ -361,7 +367,8 @@ def build(L):
     d = build(L0)
     if L.get('warm'):
       warm_up(d)
-    d.bounds = np.array(fl([list(b) for b in L['bounds']]))
+    tb = np.array(fl([list(b) for b in L['bounds']]))
+    d.bounds = tb.astype(int) if (L.get('intb') and all(F(v).denominator == 1 for b in L['bounds'] for v in b)) else tb
     return d
   if L.get('post_set') and L['cls'] != 'SDevice':
     L0 = dict(L)
@@ -375,6 +382,8 @@ def build(L):
   import device_kit as dk
   cls, n = L['cls'], L['n']
   bounds = np.array(fl([list(b) for b in L['bounds']]))
+  if L.get('intb') and all(F(v).denominator == 1 for b in L['bounds'] for v in b):
+    bounds = bounds.astype(int)
   cb = py_cbounds(L['cbounds'], L.get('cb_kind'))
   i = L.get('id', 'd')
 
@@ -555,7 +564,7 @@ def leaf_from_json(J):
   if L.get('cbounds') is not None:
     L['cbounds'] = [(F(a), F(b), int(s), int(e)) for a, b, s, e in L['cbounds']]
   for k, v in list(L.items()):
-    if k in ('n', 'cls', 'id', 'cb_kind', 'bounds', 'cbounds', 'f', 'ucons', 'rate_clip', 'post_set', 'rebound', 'warm', 'omit', 'recb', 'twice', 'nd'):
+    if k in ('n', 'cls', 'id', 'cb_kind', 'bounds', 'cbounds', 'f', 'ucons', 'rate_clip', 'post_set', 'rebound', 'warm', 'omit', 'recb', 'twice', 'nd', 'intb'):
       continue
     if isinstance(v, int) and not isinstance(v, bool):
       L[k] = F(v)
